@@ -5571,6 +5571,9 @@ class PyCdlib:
             # Rule 9
             raise pycdlibexception.PyCdlibInvalidInput('A Joliet path can only be specified for a Joliet ISO')
 
+        # Every name has to be free and addable before the first one is added.
+        self._check_new_paths(symlink_path, joliet_path, udf_symlink_path)
+
         # Checks complete, we can go on to make the symlink.
 
         num_bytes_to_add = 0
